@@ -48,6 +48,7 @@ pub fn worker_main(props: &[Property], args: &[String]) -> i32 {
     *WATCH.dump_path.lock().unwrap() = Some(format!("{}.hang.json", out));
     *WATCH.header.lock().unwrap() = Some((id.clone(), sub.clone()));
     start_watchdog();
+    install_abort_handler();
     let params = RunParams { property: id.clone(), tier, seed, shard, nshards };
     let mut stats = sc.exec(&params);
     if let Some(f) = &mut stats.failure {
@@ -94,6 +95,7 @@ pub fn exec_case_main(props: &[Property], file: &str) -> i32 {
     WATCH.case_budget_ms.store(env_u64("VERIF_CASE_BUDGET_MS", 30_000), Ordering::Relaxed);
     WATCH.rss_budget_kb.store(env_u64("VERIF_RSS_LIMIT_MB", 3 * 1024) * 1024, Ordering::Relaxed);
     start_watchdog();
+    install_abort_handler();
     *WATCH.current.lock().unwrap() = Some((Instant::now(), "null".to_string()));
     match sc.replay(&doc["case"]) {
         Err(e) => {
